@@ -257,6 +257,47 @@ def signature(p, f, with_control=True):
                     sig[e] += k
                 continue
             sig[("call", n)] += 1
+    return _merge_arms(sig) if with_control else sig
+
+
+def _merge_arms(sig):
+    """`if (c) x = a; else x = b;' and `x = c ? a : b;' are one assignment of x: two stores to the same target whose control conditions differ in one
+    complementary condition only are counted as one store under the common conditions"""
+    neg = {"eq": "ne", "ne": "eq", "sgt": "sle", "sle": "sgt", "sge": "slt", "slt": "sge", "ugt": "ule", "ule": "ugt", "uge": "ult", "ult": "uge"}
+
+    def complement(c1, c2):
+        m1 = re.match(r"^(.*) (eq|ne|sgt|sge|slt|sle|ugt|uge|ult|ule) (.*)$", c1)
+        m2 = re.match(r"^(.*) (eq|ne|sgt|sge|slt|sle|ugt|uge|ult|ule) (.*)$", c2)
+        p1, p2 = (m1.groups() if m1 else ()), (m2.groups() if m2 else ())
+        if len(p1) == 3 and len(p2) == 3:
+            if p1[0] == p2[0] and p1[2] == p2[2] and neg.get(p1[1]) == p2[1]:
+                return True
+            # a < b  vs  b <= a  written with swapped operands after normalisation
+            if p1[0] == p2[2] and p1[2] == p2[0] and {p1[1], p2[1]} in ({"sgt", "sge"}, {"ugt", "uge"}):
+                return True
+        return False
+    changed = True
+    while changed:
+        changed = False
+        stores = [e for e in sig if e[0] == "store" and len(e) == 4 and sig[e] > 0]
+        for i_, e1 in enumerate(stores):
+            for e2 in stores[i_ + 1:]:
+                if e1[1] != e2[1] or sig[e1] <= 0 or sig[e2] <= 0:
+                    continue
+                s1, s2 = set(e1[3]), set(e2[3])
+                d1, d2 = s1 - s2, s2 - s1
+                if len(d1) == 1 and len(d2) == 1 and complement(list(d1)[0], list(d2)[0]):
+                    vc = e1[2] if e1[2] == e2[2] else "value"
+                    merged = ("store", e1[1], vc, tuple(sorted(s1 & s2)))
+                    sig[e1] -= 1
+                    sig[e2] -= 1
+                    sig[merged] += 1
+                    changed = True
+                    break
+            if changed:
+                break
+    for e in [e for e in sig if sig[e] <= 0]:
+        del sig[e]
     return sig
 
 
